@@ -57,6 +57,10 @@ def awkward(world, build, G, setid):
                 rd("aw_g_edge", g0 - 30, "50M")]
         if not world.spec.pseudo:
             out += [rd("aw_g_spanning", g0 - 40, f"{world.glen() + 80}M")]
+        else:
+            p0 = worlds.OFFS[build][1] - 1       # the pseudogene lies outside the RefSeq-mapped part
+            out += [rd("aw_p_del", p0 + 130, "20M3D27M"), rd("aw_p_del2", p0 + 133, "25M2D23M"), rd("aw_p_ins", p0 + 330, "25M2I23M"),
+                    rd("aw_p_x", p0 + 430, "20=2X28="), rd("aw_p_edge", p0 - 25, "50M")]
     return out
 
 
